@@ -342,6 +342,12 @@ type env struct {
 	// handed over when the subscription fails must still arrive.
 	busyErr    bool // armed for the current HEAD
 	errPlanted bool // the subscription error of the following SUBERR line is already in flight
+
+	// Second schedule variation: when the k-th (k >= 1) eth_getLogs call of an event is scripted to fail, the
+	// handler stays busy with the LAST entry of the batch before it (it does not receive it) until the failing
+	// call has been answered: the fetch error arrives while an entry is waiting to be handed over.
+	holdArmed bool
+	holdLeft  int // entries still to receive before the handler gets busy
 }
 
 const busyFor = 120 * time.Millisecond
@@ -406,6 +412,7 @@ func (e *env) closeClient() {
 func (e *env) resetOp() {
 	e.qs, e.es2, e.ms, e.nq = nil, nil, nil, 0
 	e.lastDrop = false
+	e.holdArmed = false
 }
 
 // flush prints what the implementation did during the current operation, in canonical order.
@@ -432,9 +439,30 @@ func (e *env) flush() {
 func (e *env) wait(logs <-chan executionclient.BlockLogs, head bool) int {
 	timer := time.NewTimer(e.limit)
 	defer timer.Stop()
+	var holdSince time.Time
 	for {
+		lc := logs
+		if e.holdArmed && e.holdLeft == 0 {
+			if holdSince.IsZero() {
+				holdSince = time.Now()
+			}
+			if time.Since(holdSince) < 400*time.Millisecond {
+				lc = nil // busy: the entry offered by the client has to wait
+			} else {
+				e.holdArmed = false // the failing call did not come: give up the variation
+			}
+		}
+		var poll <-chan time.Time
+		if lc == nil {
+			poll = time.After(50 * time.Millisecond)
+		}
 		select {
-		case bl, ok := <-logs:
+		case <-poll:
+			continue
+		case bl, ok := <-lc:
+			if e.holdArmed && e.holdLeft > 0 {
+				e.holdLeft--
+			}
 			if !ok {
 				if e.fatal.Load() {
 					return stFatal
@@ -465,6 +493,12 @@ func (e *env) wait(logs <-chan executionclient.BlockLogs, head bool) int {
 			switch {
 			case e.fs.on && i == e.fs.k && e.fs.kind == "err":
 				r.reply <- repErr
+				if e.holdArmed && e.holdLeft == 0 {
+					// the handler was busy with the last entry of the previous batch while this fetch failed
+					e.out.Count("schedule-fetch-error-while-handler-busy")
+					time.Sleep(busyFor / 2) // the client stores the error and closes its stream
+				}
+				e.holdArmed = false
 			case e.fs.on && i == e.fs.k && e.fs.kind == "drop":
 				time.Sleep(e.delay)
 				e.node.lis.cutAll()
@@ -478,6 +512,18 @@ func (e *env) wait(logs <-chan executionclient.BlockLogs, head bool) int {
 				}
 			default:
 				r.reply <- repOK
+				if e.fs.on && e.fs.kind == "err" && i+1 == e.fs.k && e.mon != nil {
+					// the next call fails: count the entries this batch will deliver
+					n := 0
+					for b := r.from; b <= r.to && b >= r.from; b++ {
+						if len(visible(e.chain[b])) > 0 {
+							n++
+						}
+					}
+					if n > 0 {
+						e.holdArmed, e.holdLeft = true, n-1
+					}
+				}
 				if e.busyErr && i == 0 {
 					e.busyErr = false
 					time.Sleep(busyFor / 3) // the client packs the answer and offers the first entry
